@@ -16,7 +16,8 @@ EXCS = ["RuntimeError", "ValueError", "ZeroDivisionError", "KeyError",
         "DSOLError", "AssertionError"]
 BAD_KINDS = ["past_abs", "neg_rel", "nan_abs", "nan_rel", "str_abs",
              "none_abs", "str_rel", "past_event", "tiny_neg_rel", "tiny_neg_rel",
-             "tiny_past_abs"]
+             "tiny_past_abs", "nan_event", "nan_sub_event", "nan_custom_event",
+             "past_custom_event"]
 
 
 def gen_program(rng, clock=None, n_events=None, p_cancel=0.12, p_bad=0.0,
@@ -127,10 +128,38 @@ def gen_program(rng, clock=None, n_events=None, p_cancel=0.12, p_bad=0.0,
         prog["custom_events"] = rng.choice([True, "subclass", "subclass", "both"])
     if clock == "float" and rng.random() < 0.15:
         prog["int_literals"] = True        # whole numbers are passed as Python ints
+    if rng.random() < 0.12:
+        add_tc_listener(rng, prog)
     if unit:
         prog["unit"] = unit
         prog["display_unit"] = display_unit
     return prog
+
+
+def add_tc_listener(rng, prog):
+    """A TIME_CHANGED subscriber that, when a chosen time is announced, schedules
+    a new event at that very time (any priority) or cancels an event.  The
+    times are taken from a dry run of the reference, so most of them occur."""
+    from vf.models.refdevs import RefDEVS
+    probe = dict(prog)
+    probe["strategy"] = 1
+    ref = RefDEVS(probe)
+    ref.initialize()
+    ref.run(ref.end, True)
+    times = sorted(set(t for t, e in ref.trace if t > ref.start))
+    if not times:
+        return
+    ids = event_ids(prog)
+    acts = []
+    for k in range(rng.randint(1, 3)):
+        T = rng.choice(times)
+        if rng.random() < 0.7 or not ids:
+            eid = 9001 + k
+            prog["events"][str(eid)] = []
+            acts.append([T, ["abs", T, eid, rng.choice([1, 5, 5, 10, 10])]])
+        else:
+            acts.append([T, ["cancel", int(rng.choice(ids))]])
+    prog["tc_listener"] = acts
 
 
 def count_actions(prog, kind):
